@@ -280,6 +280,65 @@ func checkC10(r *Run) {
 			}
 		}
 		// r7: exits after the store
+		// "drained": after the entry was deleted, a value that a failure broadcast may already
+		// have put into the response's done channel is taken out again (non-blocking receive)
+		isDrain := func(n ast.Node) bool {
+			sel, ok := n.(*ast.SelectStmt)
+			if !ok {
+				return false
+			}
+			hasDefault, recvDone := false, false
+			for _, c := range sel.Body.List {
+				cc := c.(*ast.CommClause)
+				if cc.Comm == nil {
+					hasDefault = true
+					continue
+				}
+				ast.Inspect(cc.Comm, func(x ast.Node) bool {
+					if u, ok := x.(*ast.UnaryExpr); ok && u.Op == token.ARROW && strings.HasSuffix(nospace(r.L.str(u.X)), ".done") {
+						recvDone = true
+					}
+					return true
+				})
+			}
+			return hasDefault && recvDone
+		}
+		drainedAt, _ := mustFlag(db, sr, func(n ast.Node, _ *resolver) (bool, bool) {
+			if isDrain(n) {
+				return true, true
+			}
+			// the communication of such a select, as a node of its own in the flow graph
+			if st, ok := n.(ast.Stmt); ok {
+				if cc, ok := r.L.parent(st).(*ast.CommClause); ok && cc.Comm == st {
+					if blk, ok := r.L.parent(cc).(*ast.BlockStmt); ok {
+						if sel, ok := r.L.parent(blk).(*ast.SelectStmt); ok && isDrain(sel) {
+							isRecv := false
+							ast.Inspect(st, func(x ast.Node) bool {
+								if u, ok := x.(*ast.UnaryExpr); ok && u.Op == token.ARROW && strings.HasSuffix(nospace(r.L.str(u.X)), ".done") {
+									isRecv = true
+								}
+								return true
+							})
+							if isRecv {
+								return true, true
+							}
+						}
+					}
+				}
+			}
+			del := false
+			inspectNoLit(n, func(x ast.Node) {
+				if c, ok := x.(*ast.CallExpr); ok {
+					if id, ok := c.Fun.(*ast.Ident); ok && id.Name == "delete" && len(c.Args) == 2 && strings.HasSuffix(nospace(r.L.str(c.Args[0])), ".pending") {
+						del = true
+					}
+				}
+			})
+			if del {
+				return false, true // a broadcast before the delete may still signal: drain afterwards
+			}
+			return false, false
+		}, nil)
 		n := 0
 		for _, ex := range db.Exits[sr] {
 			if ex.Fn != ast.Node(sr.Decl) || ex.St.Dead {
@@ -305,6 +364,10 @@ func checkC10(r *Run) {
 			pos := sr.Decl.End()
 			if ex.Ret != nil {
 				pos = ex.Ret.Pos()
+			}
+			if !waited && deleted && ex.Ret != nil {
+				r.check(drainedAt[ex.Ret], "r7", fmt.Sprintf("sendRecv exit #%d recycles an empty response", n), pos, "after the entry is deleted the done channel is drained (select with default)",
+					"this exit did not wait for its response, yet a failure broadcast (handleOne: every pending entry is signalled) may have put an error into resp.done between the registration and the delete: the response object goes back to the process-wide pool with that value still in its channel, and the next call that draws it - on any client - returns that stale error at once while its own reply is later taken for an unexpected tag")
 			}
 			r.check(waited || deleted, "r7", fmt.Sprintf("sendRecv exit #%d leaves no pending entry", n), pos, "went through waitAndRecv (delivery removes the entry) or deletes it",
 				"this exit (send failed) leaves c.pending[tag] pointing at the response object that the deferred responsePool.Put recycles: a later failure broadcast writes into another call's channel, and with the channel already full blocks for ever while holding pendingMu")
